@@ -86,9 +86,11 @@ func (p *propC10) Prepare(seed uint64, tier string) int {
 			}
 		}
 		f := parseFrame(b, 0)
-		if f == nil || len(f.Problems) > 0 || !plainDecodeOK(b) {
+		if f == nil || len(f.Problems) > 0 {
 			continue
 		}
+		// no "does the decoder under test accept it" filter here: a model-built
+		// valid frame that Decode rejects is reported by the scenarios (rejects-valid)
 		p.pool = append(p.pool, poolEntry{Name: fmt.Sprintf("model%d", i), Bytes: b, Med: Medium{Records: rs}, FT: ft})
 	}
 	for i, rs := range stateProbeStreams(NewRng(seed, "C10/stateprobe", 0)) {
